@@ -3,9 +3,17 @@
 # seeded/MATRIX.tsv.  Each change is applied to /repo's working tree, checked, and reverted (harness/mutest.sh).
 # usage: harness/mutation_matrix.sh [id-prefix ...]
 cd /verif || exit 2
-out=seeded/MATRIX.tsv
+out=${MATRIX_OUT:-seeded/MATRIX.tsv}
 tmp=$(mktemp /var/tmp/matrix.XXXXXX)
 printf "seeded_id\tproperty\texit\tsummary_line\n" > "$tmp"
+if [ $# -gt 0 ] && [ -f "$out" ]; then
+  # partial run: keep the rows of the changes that are not re-run
+  tail -n +2 "$out" | while IFS= read -r line; do
+    id=${line%%$'\t'*}; keep=1
+    for p in "$@"; do case "$id" in $p*) keep=0;; esac; done
+    [ $keep -eq 1 ] && printf "%s\n" "$line" >> "$tmp"
+  done
+fi
 for d in seeded/*/; do
   id=$(basename "$d")
   if [ $# -gt 0 ]; then ok=0; for p in "$@"; do case "$id" in $p*) ok=1;; esac; done; [ $ok -eq 1 ] || continue; fi
@@ -22,5 +30,5 @@ for d in seeded/*/; do
     printf "%s\t%s\t%s\t%s\n" "$id" "$pr" "$ex" "$line" >> "$tmp"
   done
 done
-mv "$tmp" "$out"
+(head -1 "$tmp"; tail -n +2 "$tmp" | sort) > "$out"; rm -f "$tmp"
 cat "$out"
